@@ -479,11 +479,12 @@ SweepM == {Desc(k, m, <<>>, "kept", 1, "none", FALSE, o, "ENABLED", FALSE, "none
 KindsBQuick == {"function", "bound_method", "callable_object", "class", "generator",
                 "artifact_dnc", "bo_print", "c_bound", "unbound_method"}
 KindsB == IF Q THEN KindsBQuick ELSE {k \in AllKinds : Kinds[k].keys = {"k", "z"}}
-ChainsB == IF Q THEN Chains(LayerSetAll, LayerSetSmall) ELSE Chains(LayerSetAll, LayerSetAll)
+KindsBDeep == IF Q THEN {} ELSE {"function", "bound_method", "class", "bo_print"}   \* every depth-2 chain
+ChainsB(k) == IF k \in KindsBDeep THEN Chains(LayerSetAll, LayerSetAll) ELSE Chains(LayerSetAll, LayerSetSmall)
 KindOptsB == {<<k, "o_u0i1">> : k \in KindsB}
-               \cup {<<k, o>> : k \in IF Q THEN {"function"} ELSE KindsB, o \in {"s_r0", "o_u1i1"}}
-SweepB == {Desc(ko[1], "user", ls, n, s[1], s[2], FALSE, ko[2], "UNSPECIFIED", FALSE, "none", 1, "same") :
-             ko \in KindOptsB, ls \in ChainsB, n \in {"flat", "kept"}, s \in AllShapes}
+               \cup {<<k, o>> : k \in IF Q THEN {"function"} ELSE KindsBQuick, o \in {"s_r0", "o_u1i1"}}
+SweepB == UNION {{Desc(ko[1], "user", ls, n, s[1], s[2], FALSE, ko[2], "UNSPECIFIED", FALSE, "none", 1, "same") :
+                    ls \in ChainsB(ko[1]), n \in {"flat", "kept"}, s \in AllShapes} : ko \in KindOptsB}
 
 (* F: conversion failures and their memory *)
 KindsFQuick == {"function", "lambda", "closure", "bound_method", "class_method", "static_method",
